@@ -34,6 +34,22 @@ class ConstantExpressionEvaluator:
             value = expr
         else:  # pragma: no cover
             raise NotImplementedError(str(expr))
+
+        if isinstance(expr, expressions.CExpression):
+            value = self.to_type(expr.typ, value)
+        return value
+
+    def to_type(self, typ, value):
+        """Convert the value to the given type, if this is an integer type.
+
+        Integer values wrap around modulo 2^n, using two's complement for
+        the signed types.
+        """
+        if typ.is_integer and isinstance(value, int):
+            bits = self.context.sizeof(typ) * 8
+            value &= (1 << bits) - 1
+            if typ.is_signed and value >> (bits - 1):
+                value -= 1 << bits
         return value
 
     def eval_variable_access(self, expr):
